@@ -461,8 +461,7 @@ def cli_gate(ck):
     exits = calls_with_env(ent, lambda c: call_name(c) == 'sys.exit', stmts=tail)
     good = [e for e in exits if flow.equivalent(norm(e[2]), flow.parse_formula('LEFT'))[0] and e[0].args and isinstance(try_fold(e[0].args[0]), int)
             and try_fold(e[0].args[0]) != 0]
-    before = bool(good) and good[0][1].lineno < found[0][1].lineno
-    ck.ob('MPT-gate', cli.loc(ent), bool(good) and before, 'with leftover warnings the run ends in sys.exit(<non-zero>) before the finalisation could be reached', key='MPT-gate|exit')
+    ck.ob('MPT-gate', cli.loc(ent), bool(good) and ok, 'with leftover warnings the run ends in sys.exit(<non-zero>) before the finalisation could be reached', key='MPT-gate|exit')
     # after the count, entry() only branches on it: nothing that can still log a warning runs between the count and the decision
     rest = tail[1:]
     only_gate = bool(rest) and all(isinstance(s_, ast.If) and flow.atoms_of(norm(flow.to_formula(s_.test, {u(ent.body[start].targets[0]): ent.body[start].value}))) == {'LEFT'}
